@@ -99,6 +99,12 @@ func Do(c *sim.Cluster, a Action) error {
 			return c.SubmitRaw(a.A, []byte(a.Tx))
 		}
 		return c.Submit(a.A)
+	case "TE": // empty transaction
+		return c.SubmitRaw(a.A, []byte{})
+	case "TB": // binary transaction (unique per node: 0x00 0xff prefix + counter)
+		return c.SubmitRaw(a.A, append([]byte{0x00, 0xff, 0xfe}, c.NextTx(a.A)...))
+	case "TD": // duplicate-content transaction
+		return c.SubmitRaw(a.A, []byte("dup"))
 	case "J":
 		return c.RequestJoin(a.A, a.B)
 	case "L":
